@@ -53,6 +53,8 @@ def op_strategy(client, idx):
         st.tuples(st.just('set'), k, v),
         st.tuples(st.just('add'), k, v),
         st.tuples(st.just('add'), k, v),
+        st.tuples(st.just('set'), k, v, st.just('nr')),  # retry=False: either stores the value or raises Timeout and changes nothing
+        st.tuples(st.just('incr'), st.just('n'), st.sampled_from([1, 2]), st.just('nr')),
         st.tuples(st.just('setbad'), k, filev),  # fails inside its transaction after the value file was written: must change nothing
         st.tuples(st.just('get'), k),
         st.tuples(st.just('get'), k),
@@ -163,7 +165,9 @@ def do_op(cache, op):
     name = op[0]
     try:
         if name == 'set':
-            return ('ok', cache.set(op[1], mk(op[2]), retry=True))
+            r = cache.set(op[1], mk(op[2]), retry=len(op) < 4)
+            # (a sharded cache reports the timeout of a retry=False call by returning False / None instead of raising)
+            return ('exc', 'Timeout') if len(op) == 4 and r is False else ('ok', r)
         if name == 'add':
             return ('ok', cache.add(op[1], mk(op[2]), retry=True))
         if name == 'setbad':
@@ -186,7 +190,8 @@ def do_op(cache, op):
         if name == 'in':
             return ('ok', op[1] in cache)
         if name == 'incr':
-            return ('ok', cache.incr(op[1], op[2], retry=True))
+            r = cache.incr(op[1], op[2], retry=len(op) < 4)
+            return ('exc', 'Timeout') if len(op) == 4 and r is None else ('ok', r)
         if name == 'decr':
             return ('ok', cache.decr(op[1], op[2], retry=True))
         if name == 'close':
